@@ -6,7 +6,7 @@
 //!                             bits 4-5 API: 0 loader + get_template, 1 add_template_owned, 2 template_from_str
 //!                             (= render_str), 3 template_from_named_str; bit6: t0 is an *expression*
 //!                             (compile_expression + eval); bits 7-8 undefined behaviour (0 lenient, 1 chainable, 2 semi-strict, 3 strict);
-//!                             flags >> 12 = fuel + 1 (0 = unlimited).
+//!                             flags >> 12 = fuel + 1 (0 = unlimited), or with bit 9 the recursion limit.
 //! 1 flags SRC                 tokenizer only (machinery::tokenize): every token span + the error
 //! 2 nops (op a b c d e f)* nq q*   Instructions line/span tables driven directly
 //!                             op 0 = add, 1 = add_with_line(a), 2 = add_with_span(a..f)
@@ -161,7 +161,10 @@ fn pipeline(flags: i64, sources: Arc<Vec<String>>, debug: bool, out: &mut Vec<St
         3 => minijinja::UndefinedBehavior::Strict,
         _ => minijinja::UndefinedBehavior::Lenient,
     });
-    if flags >> 12 > 0 {
+    if flags & 512 != 0 {
+        // bit 9: the number in flags >> 12 is the recursion limit instead
+        env.set_recursion_limit((flags >> 12) as usize);
+    } else if flags >> 12 > 0 {
         // out of fuel after (flags >> 12) - 1 units: an error at an arbitrary instruction
         env.set_fuel(Some((flags >> 12) as u64 - 1));
     }
